@@ -217,7 +217,10 @@ impl Recv {
         requires old(self).wf()
         ensures final(self).wf(),
             match res {
-                Ok((credits, t)) => !old(self).stopped && final(self).stopped && credits == old(self).end - old(self).assembler.bytes_read_spec()
+                // credit for what was received and not read -- unless a RESET_STREAM already returned credit for the whole stream
+                // (StreamsState::received_reset credits everything up to the final size)
+                Ok((credits, t)) => !old(self).stopped && final(self).stopped
+                    && credits == (if old(self).state is ResetRecvd { 0 } else { old(self).end - old(self).assembler.bytes_read_spec() })
                     && final(self).state == old(self).state && final(self).end == old(self).end && t.0 == (old(self).state is Recv),
                 Err(_) => old(self).stopped && *final(self) == *old(self),
             }
